@@ -352,6 +352,9 @@ func SafetyScenario(t *Tape) *Scenario {
 			}
 		}
 	}
+	// the application's policy callbacks (VerifyPrepareRequest / VerifyPrepareResponse /
+	// VerifyCommit) reject now and then
+	sc.VerdictPM = pick(t, SScen, uint64(0), 0, 0, 50, 200)
 	if t.Chance(SScen, 1, 4) {
 		restartFocus(t, sc)
 	}
